@@ -586,7 +586,7 @@ def run(ctx):
                 return
             elif f == "numbers-only-elementwise":
                 # plain Python integers that fit the matrix integer type (64 bits) but not a C int
-                a_, b_ = rng.choice([(2**40, 3), (3, 2**40), (-2**40, 3), (2**20, 2**20), (2**31, 1), (-2**31 - 1, 2), (2**33 + 5, 2**33 + 4)])
+                a_, b_ = rng.choice([(2**40, 3), (3, 2**40), (-2**40, 3), (2**20, 2**20), (2**31, 1), (-2**31 - 1, 2), (2**31 + 5, 2**31 + 4)])
                 fn = rng.choice(["mul", "emax", "emin"])
                 ctx.count("c15.overflow.numbers-only-" + fn)
                 do("_ = %s(%d, %d)" % (fn, a_, b_), "overflow:numbers-only-" + fn, "_")
